@@ -128,7 +128,12 @@ class Result:
         self.count("disagreements")
 
     def violate(self, sig, what, case):
-        if len(self.violations) < 200:
+        # capped per signature, so that a frequent (e.g. known) finding cannot crowd a different violation out
+        n = self._per_sig.get(sig, 0) if hasattr(self, "_per_sig") else 0
+        if not hasattr(self, "_per_sig"):
+            self._per_sig = {}
+        self._per_sig[sig] = n + 1
+        if n < 25 and len(self.violations) < 5000:
             self.violations.append({"sig": sig, "what": what, "case": case})
         self.count("violations")
 
